@@ -68,3 +68,21 @@ PROPS["C10"] = dict(
     rule="all query sequences of length <= 3 (quick) / 4 (thorough) over 22 operations (18 (coords, value) combinations on one key, a key-less state, a second key, a second depth, clear_layer), with and without value; random sequences of length 4..150 with 0..3 coordinates, isize extremes, out-of-range depths; comparator evaluated on all pairs of the first six presented entries; concurrent phases; non-trivial = a dominated verdict, a clear or a panic occurred; distinct = distinct sequence",
     trivial_tags=["exhaustive", "random", "with_value"],
 )
+
+PROPS["C11"] = dict(
+    modules=["DdoModel.Props.C11"],
+    theorems=["Ddo.C11.push_keeps_others", "Ddo.C11.coalesce_only_same_subproblem", "Ddo.C11.push_no_invention",
+              "Ddo.C11.survivor_fields", "Ddo.C11.push_represents_new", "Ddo.C11.push_length",
+              "Ddo.C11.pop_returns_root", "Ddo.C11.pop_is_max", "Ddo.C11.pop_max_ub_value", "Ddo.C11.pop_empty",
+              "Ddo.C11.heapOrdB_sound", "Ddo.C11.keyOld_merges_distinct",
+              "Ddo.NoDup.root_max", "Ddo.subLe_trans", "Ddo.subLe_iff"],
+    stated_not_proved=["Ddo.C11.NoDupInvariantInductive (wfB / heapOrdB preserved by push and pop): checked by the driver on every state of every explored trace, not proved",
+                       "Ddo.C11.NoDupRefinesKeyed (concrete push = specification push on the live nodes): watched through phi on the implementation's outputs"],
+    level_text="Specification level (keyed priority queue with the property's coalescing rule): proved for every push that only an entry denoting the same (state, depth) is touched, the survivor's fields, no loss, no invention, length law. Concrete level (field-by-field model of NoDupFringe, tied by exact trace equality on all explored sequences): pop returns the heap root, shortens the heap by one, and - in any well-formed heap-ordered state - the popped node is MaxUB-maximal, so pops are in non-increasing ub order with ties by larger value. The invariants (wfB, heapOrdB) are evaluated on every state of every explored trace but not yet proved inductive; the refinement NoDup -> KeyedPQ is stated, not proved, and watched by phi (reference keyed multiset replay of the implementation's outputs).",
+    level_note="Partial: inductiveness of the heap invariants and the concrete-to-spec refinement are stated as Props (NoDupInvariantInductive, NoDupRefinesKeyed), checked at run time only. SimpleFringe = binary_heap_plus::BinaryHeap is modelled (pop returns a comparator-maximal element), not verified. Model follows the code after fix commit d8c734c (D2: key = (state, depth)); keyOld_merges_distinct is the witness against the old key. Comparator hypotheses: the state ranking is a preorder.",
+    engines=[dict(name="fringe")],
+    trusted_base=TB_COMMON + ["binary_heap_plus::BinaryHeap behind SimpleFringe (modelled as: pop returns a comparator-maximal element)", "FxHashMap lookup/insert/remove = finite map"],
+    assumptions=["state ranking is a total preorder (MaxUB over it is then one too)"],
+    rule="all sequences of length <= 4 (quick) / 5 (thorough) over 18 operations (pushes with state, depth, value, ub in {0,1}^4 + pop + clear), each followed by len and a full drain, for NoDupFringe/total ranking (and SimpleFringe and a coarse ranking on two lengths); random sequences of length 5..2000 with small alphabets (1..12 states, 1..3 depths) and recycling-heavy push/pop mixes for both fringes and both rankings; non-trivial = a duplicate push, the same state at another depth, or a push after a pop (slot recycling) occurred; distinct = distinct sequence + fringe + ranking",
+    trivial_tags=["exhaustive", "random"],
+)
